@@ -340,7 +340,9 @@ func removeOutputParam(match matcher,
 				for _, call := range pipe.Calls {
 					for _, binding := range call.Bindings.List {
 						if binding.Id == "*" {
-							break
+							// The bindings which the wildcard expands to
+							// follow it, and may refer to the output.
+							continue
 						}
 						edits = removeRefFromBinding(edits,
 							binding, pipe, call, callable, param,
@@ -363,7 +365,7 @@ func removeOutputParam(match matcher,
 				if pipe.Ret != nil {
 					for _, binding := range pipe.Ret.Bindings.List {
 						if binding.Id == "*" {
-							break
+							continue
 						}
 						var err error
 						if shouldRemoveExpCallRef(binding.Exp, pipe, callable, param) {
